@@ -39,10 +39,11 @@ def check_supervised_premises(chk, rep, repo):
     check_prim(trep, "", comps[0])
     check_seeding(trep, "", comps[-1], repo)
     check_fmax_competition(trep, "", comps[-1])
+    deferred = None
     try:
         c03.check(tmp, repo)
-    except Exception as exc:  # C03 reports its own analysis errors; here it is only a premise
-        tmp.ob("SCAN-analysis", "SupervisedOPF.predict", "C03 rule set", False, f"could not be evaluated: {exc}")
+    except AnalysisError as exc:  # a premise that cannot be analysed leaves the clause undecided (exit 2), it is not a finding
+        deferred = exc
     n = 0
     for o in tmp.obligations:
         if o.rule.endswith("SCAN-orientation"):
@@ -50,6 +51,8 @@ def check_supervised_premises(chk, rep, repo):
         if any(o.rule.startswith(p) or (":" in o.rule and o.rule.split(":", 1)[1].startswith(p)) for p in SUP_RULES):
             n += 1
             chk.ob("SUP:" + o.rule, o.function, o.construct, o.ok, o.detail, o.file, o.line)
+    if deferred is not None:
+        raise AnalysisError(f"premise C03 (supervised predict) could not be evaluated: {deferred}")
     chk.floor("premise obligations of the supervised clause (from C01-C03's rule sets)", n, 20)
 
 
@@ -81,7 +84,7 @@ def check(chk, repo):
     rep = Rep(chk, repo)
     w, comps = competitions_of(repo, "KNNSupervisedOPF", "fit", 2)
     final = comps[-1]
-    if final.fn.qual != "KNNSupervisedOPF._clustering":
+    if not (final.fn.cls == "KNNSupervisedOPF" and final.fn.name.startswith("_")):  # _clustering or a phase helper of it
         raise AnalysisError(f"final competition of KNNSupervisedOPF.fit is in {final.fn.qual}")
     chk.note("final_clustering", f"{final.fn.qual}:{final.loop.line}")
     # it must be the last clustering: nothing re-clusters afterwards (by construction comps[-1])
